@@ -239,8 +239,24 @@ def main(argv):
         ck = Checker(pid, tier)
         mod = importlib.import_module("qsa.rules.%s" % pid.lower())
         mod.run(ck)
-        if tier == "thorough" and hasattr(mod, "thorough"):
-            mod.thorough(ck)
+        if tier == "thorough" and only is None:
+            from . import battery, selftest
+
+            # (b) neighbourhood: rules of other properties that share code with this one
+            for modname, prefix in battery.NEIGHBOURS.get(pid, []):
+                nb = Checker(pid, tier)
+                nb.program = ck.program
+                try:
+                    importlib.import_module("qsa.rules.%s" % modname).run(nb)
+                except Exception as e:  # a neighbour must not break this property's verdict
+                    ck.undecided(prefix, "neighbour", "", "neighbour rules failed: %s" % e)
+                    continue
+                for r in nb.results:
+                    if r.rule.startswith(prefix) and r.instance != "instance-count":
+                        r.rule = "%s<-%s" % (pid, r.rule)
+                        ck.results.append(r)
+            # (c) self-validation of the checker on scratch copies
+            selftest.thorough(ck, battery.VARIANTS.get(pid, []))
         if only is not None:
             ck.results = [r for r in ck.results if (r.rule, r.instance) == only]
             for r in ck.results:
